@@ -26,6 +26,11 @@ def run_proofs(rep: Report, mods: List[str], keys: List[str], replays: Dict[str,
     counter-model natively (run inside the worker, so the search continues when a candidate does not reproduce).
     """
     replays = replays or {}
+    generic = ("pyvc encoding (DESIGN §3.6, §10.1): Python int = mathematical integer (exact for CPython); floats are never reasoned about; strings are uninterpreted atoms; dict/set/list semantics as modelled "
+               "by the engine (insertion-ordered dicts by injective stamps); exceptions other than those raised explicitly or by modelled operations (KeyError, IndexError, AttributeError on None, AssertionError) are not "
+               "modelled; termination is not proved; obligations are discharged per function against the CONTRACTS of callees (assumed contracts are listed in trusted_base)")
+    if generic not in rep.assumptions:
+        rep.assumptions.append(generic)
     lock = {} if os.environ.get("PYVC_RELOCK") else load_lock().get(rep.property_id, {})  # --relock rebuilds the list from scratch
     res = verify_all(mods, keys, workers=workers, timeout_ms=timeout_ms, replays=replays)
     seen_names = set()
